@@ -87,6 +87,8 @@ type CRLSpec struct {
 	PEM        bool
 	CRLF       bool
 	BadSig     bool // flip a bit of the signature value after signing
+	SigOverride []byte // use this signature value instead of signing (a signature replayed from another document)
+	Sig        []byte // built: the signature value
 
 	DER   []byte // built
 	Bytes []byte // as served (DER or PEM)
@@ -210,6 +212,10 @@ func (c *CRLSpec) Build() *CRLSpec {
 		sig = append([]byte(nil), sig...)
 		sig[len(sig)-2] ^= 0x10
 	}
+	if c.SigOverride != nil {
+		sig = append([]byte(nil), c.SigOverride...)
+	}
+	c.Sig = sig
 	var ob cryptobyte.Builder
 	ob.AddASN1(cbasn1.SEQUENCE, func(b *cryptobyte.Builder) {
 		b.AddBytes(tbs)
